@@ -45,8 +45,8 @@ def expected_for(o, prefix, prog):
     sc = o.scope
     st_ = o.stmt
     toks = st_.toks
-    is_call_stmt = bool(toks) and isinstance(toks[0], str) and toks[0].startswith("call ")
-    first_ref = next((i for i, t in enumerate(toks) if isinstance(t, fmodel.Ref)), None)
+    first_ref = fmodel.call_name_index(toks)  # the name after CALL (also in 'if (c) call name')
+    is_call_stmt = first_ref is not None
     if o.role == "member":
         ti = o.tok_i
         bi = fmodel.chain_prev(toks, ti)
